@@ -40,6 +40,7 @@ def summarize(j):
                     if t['k'] == 'call' and t['callee'].get('k') == 'def':
                         (loc if t['callee'].get('local') else ext).add(t['callee']['path'])
         fns[b['path']] = {'sig': norm_sig(b.get('sig')), 'argc': b['arg_count'], 'params': [l.get('name') for l in b['locals'][1:b['arg_count'] + 1]],
+                          'ptys': [l.get('ty') for l in b['locals'][1:b['arg_count'] + 1]],
                           'ext': sorted(ext), 'loc': sorted(loc), 'impl_self': b.get('impl_self'), 'impl_trait': b.get('impl_trait')}
     adts = {}
     for a in j['adts']:
@@ -66,6 +67,7 @@ def _summarize_fast(j):
                 if t['k'] == 'call' and t['callee'].get('k') == 'def':
                     (loc if t['callee'].get('local') else ext).add(t['callee']['path'])
         fns[b['path']] = {'sig': norm_sig(b.get('sig')), 'argc': b['arg_count'], 'params': [l.get('name') for l in b['locals'][1:b['arg_count'] + 1]],
+                          'ptys': [l.get('ty') for l in b['locals'][1:b['arg_count'] + 1]],
                           'ext': sorted(ext), 'loc': sorted(loc), 'impl_self': b.get('impl_self'), 'impl_trait': b.get('impl_trait')}
     adts = {}
     for a in j['adts']:
@@ -196,8 +198,12 @@ def normalise_text(text, cfg):
         bf = base['fns'].get(b['path'])
         if not bf or bf['argc'] != b['arg_count']:
             continue
+        ptys = bf.get('ptys') or [None] * len(bf['params'])
         for i, nm in enumerate(bf['params']):
             l = b['locals'][i + 1]
+            # only a rename: same position AND same type, and the current name is not the baseline name of another parameter
+            if ptys[i] is None or l.get('ty') != ptys[i] or l.get('name') in bf['params']:
+                continue
             if nm and l.get('name') and l['name'] != nm:
                 old = l['name']
                 l['name'] = nm
